@@ -64,6 +64,18 @@ func (x *Exec) intercept(fn *ssa.Function, args []Value, site ssa.Instruction) (
 		panic(x.errf("native function %s is not registered (build the engine with the harness overlay)", name))
 	}
 	key := fnKey(fn)
+	if x.fe != nil && fn.Pkg != nil && fn.Signature.Recv() == nil && fn.Pkg.Pkg.Path() == x.eng.ModulePath+"/ring" {
+		if r, ok := x.feKernel(name, args); ok {
+			return r, true
+		}
+	}
+	if x.fe != nil {
+		if h, ok := feStubs[key]; ok {
+			if r, ok := h(x, fn, args); ok {
+				return r, true
+			}
+		}
+	}
 	if kind, ok := x.stubs[key]; ok {
 		return x.applyStub(kind, fn, args), true
 	}
